@@ -64,8 +64,10 @@ def gen_items(rng, maxcells, single, rich=True, maxitems=12):
     return items
 
 
-def gen_row(rng, row, single, rich=True, maxlen=None):
+def gen_row(rng, row, single, rich=True, maxlen=None, italic_bias=0.0):
     kind = rng.random()
+    if italic_bias and rng.random() < italic_bias:
+        kind = 0.0
     spec = {'row': row, 'col': 0, 'to': 0, 'pac_italic': False, 'pac_underline': rng.random() < 0.1,
             'pac_color': None}
     if rich and kind < 0.12:
@@ -126,7 +128,7 @@ def _peak_cells(items):
     return peak
 
 
-def gen_popon(rng, ncaps=None, rich=True):
+def gen_popon(rng, ncaps=None, rich=True, italic_bias=0.0):
     doubled = rng.random() < 0.5
     prog = {'doubled': doubled, 'drop': rng.random() < 0.5, 'captions': []}
     ncaps = ncaps or rng.randrange(1, 4)
@@ -139,7 +141,7 @@ def gen_popon(rng, ncaps=None, rich=True):
             rows = list(range(r0, r0 + nrows))
             if rng.random() < 0.3 and nrows > 2 and rows[-1] < 14:
                 rows[-1] += 2
-        prog['captions'].append({'rows': [gen_row(rng, r, not doubled, rich) for r in rows],
+        prog['captions'].append({'rows': [gen_row(rng, r, not doubled, rich, italic_bias=italic_bias) for r in rows],
                                  'edm': rng.choice(['inline', 'separate', 'none']),
                                  'enm': True,   # a load always starts by erasing the non-displayed memory
                                  'gap': rng.choice([0, 1, 2, 3, 4, 5, 6, 7, 8, 10, 40, 100, 900])})
